@@ -257,13 +257,20 @@ Definition float_is (mant e v : Z) : bool :=
 (* float x/g --ResFloat642Quantity--> q (milli) --ResQuantity2Float64--> the float mant*2^e, which
    must be the whole number t of units x/g truncates to *)
 Definition law_f2q2f (g : Z) (is_cpu : bool) (x q mant e : Z) : bool :=
-  let t := if is_cpu then q else q / 1000 in
-  (is_cpu || zeqb (q mod 1000) 0) && trunc_of g x t && float_is mant e t.
+  if conv_domain g x then
+    let t := if is_cpu then q else q / 1000 in
+    (is_cpu || zeqb (q mod 1000) 0) && trunc_of g x t && float_is mant e t
+  else true.
 
 (* quantity m (milli) --ResQuantity2Float64--> float mant*2^e --ResFloat642Quantity--> back (milli) *)
 Definition law_q2f2q (m : Z) (is_cpu : bool) (mant e back : Z) : bool :=
-  if is_cpu then float_is mant e m && zeqb back m
-  else zeqb (back mod 1000) 0 && whole_up m back && float_is mant e (back / 1000).
+  if qty_domain is_cpu m then
+    (* the value read from the Quantity is a float64: exact round trip *)
+    (if is_cpu then float_is mant e m && zeqb back m
+     else zeqb (back mod 1000) 0 && whole_up m back && float_is mant e (back / 1000))
+  else
+    (* otherwise float64(int64) rounds to the nearest float64 (ties to even) and that is all that is asked *)
+    float_is mant e (f64 (if is_cpu then m else qvalue m)).
 
 (* ---- consistency of the strict / non-strict, total / partial comparisons under one convention;
         rl = rr.Less(r, d) ---- *)
